@@ -2,16 +2,405 @@ import NeumannModel.Chain.Lemmas
 /-
   C16 — property theorems for the tamper-evident chain.  ONLY property statements and their
   non-vacuity examples live here; helpers are in `Lemmas.lean`.
+
+  Reading guide.  `Inv C reg c` is the invariant of chains built through `initialize`/`append`
+  (`built_inv`).  The tamper theorems quantify over EVERY chain length `c.height ≥ 1`, every
+  position `i`, every replacement value.  `signedOf r c.store c.height` is "what the validators
+  signed" = the stored blocks `1..=height` of the honest chain; `SigSound` says nothing else
+  verifies under a registered key.  What is false of the code as it stands is proved as
+  `…_witness`, what holds with an extra hypothesis as `…_partial`.
 -/
 namespace Neumann.Chain.Props
 open Neumann.Chain
 
-/-- `merkle_root` gives `[a,b,c]` and `[a,b,c,c]` the same root for EVERY hash function: the odd
+/-! ## 1. chains built through the public interface verify -/
+
+/-- chains reachable by `Chain::initialize` + `Chain::append`, where each appended block also
+    satisfies the two conditions `verify_chain` checks but `append` does not -/
+inductive Built (C : Crypto) (reg : Option (List (List Nat × Nat))) : ChainSt → Prop where
+  | init (s : List (SKey × SVal)) (proposer : List Nat) (ts : Nat) : Built C reg (initChain C s proposer ts)
+  | step (c c' : ChainSt) (b : Block) : Built C reg c → append C reg c b = .ok c' →
+      (∀ t, blockAt c.store c.height = some t → t.header.timestamp ≤ b.header.timestamp) →
+      (c.height = 0 → regSigOk C reg (fixTxRoot C b).header = true) → Built C reg c'
+
+theorem built_inv (C : Crypto) (reg : Option (List (List Nat × Nat))) (c : ChainSt) (h : Built C reg c) :
+    Inv C reg c := by
+  induction h with
+  | init s p ts => exact inv_init C reg s p ts
+  | step c c' b _ happ hts hsig ih => exact inv_append C reg c c' b ih happ hts hsig
+
+/-- PARTIAL (missing: `append` itself does not enforce the two side conditions of `Built.step`, so the
+    unconditional statement is false — see the two witnesses below).  Any chain of any length built
+    through `append` from blocks whose timestamps do not go back and whose height-1 block is signed
+    verifies. -/
+theorem built_chain_verifies_partial (C : Crypto) (reg : Option (List (List Nat × Nat))) (c : ChainSt)
+    (h : Built C reg c) : verifyChain C reg c = none :=
+  verify_complete C reg c (built_inv C reg c h).ok
+
+/-- a concrete two-block chain: genesis + one signed block -/
+def exBlock1 : Block :=
+  let h0 : Header := { height := 1, prevHash := (genesisBlock drvCrypto [1] 10).header.hash drvCrypto,
+                       txRoot := txRoot drvCrypto [.put 1 2], stateRoot := [0], embedding := [], codes := [],
+                       timestamp := 11, proposer := [1], signature := [] }
+  { header := { h0 with signature := drvCrypto.sign 1 h0.bytes }, txs := [.put 1 2], sigs := [] }
+
+def exChain1 : ChainSt :=
+  match append drvCrypto (some [([1], 1)]) (initChain drvCrypto [] [1] 10) exBlock1 with
+  | .ok c => c
+  | .error _ => initChain drvCrypto [] [1] 10
+
+/-- non-vacuity: `Built` holds of a real two-block chain, and it verifies -/
+example : exChain1.height = 1 ∧ verifyChain drvCrypto (some [([1], 1)]) exChain1 = none := by decide
+
+/-- WITNESS (`built_chain_verifies` is false as the code stands, 1/2): `append` accepts a block whose
+    timestamp is before the tip's; `verify_chain` rejects the resulting chain. -/
+theorem append_accepts_timestamp_regression_witness :
+    ∃ (c : ChainSt) (b : Block) (c' : ChainSt), Built drvCrypto none c ∧ append drvCrypto none c b = .ok c' ∧
+      verifyChain drvCrypto none c' = some .timestamp := by
+  let g := initChain drvCrypto [] [1] 10
+  let b : Block := { header := { height := 1, prevHash := g.tip, txRoot := [0], stateRoot := [0], embedding := [],
+                                 codes := [], timestamp := 5, proposer := [1], signature := [] }, txs := [], sigs := [] }
+  refine ⟨g, b, { store := sput (sput g.store (.block 1) (.block b)) .chainMeta (.height 1), height := 1,
+                  tip := b.header.hash drvCrypto }, Built.init _ _ _, by rfl, by decide⟩
+
+/-- WITNESS (2/2): with a validator registry, `append` accepts an UNSIGNED block at height 1 (its check is
+    `expected_height > 1`); `verify_chain` rejects the chain ("missing block signature"). -/
+theorem append_accepts_unsigned_height1_witness :
+    ∃ (c : ChainSt) (b : Block) (c' : ChainSt), Built drvCrypto (some [([1], 1)]) c ∧
+      append drvCrypto (some [([1], 1)]) c b = .ok c' ∧ verifyChain drvCrypto (some [([1], 1)]) c' = some .badSig := by
+  let g := initChain drvCrypto [] [1] 10
+  let b : Block := { header := { height := 1, prevHash := g.tip, txRoot := [0], stateRoot := [0], embedding := [],
+                                 codes := [], timestamp := 15, proposer := [1], signature := [] }, txs := [], sigs := [] }
+  refine ⟨g, b, { store := sput (sput g.store (.block 1) (.block b)) .chainMeta (.height 1), height := 1,
+                  tip := b.header.hash drvCrypto }, Built.init _ _ _, by rfl, by decide⟩
+
+/-! ## 2. tamper evidence -/
+
+/-- replace the stored block at position `i` -/
+def withBlock (c : ChainSt) (i : Nat) (b : Block) : ChainSt :=
+  { c with store := sput c.store (.block i) (.block b) }
+
+/-- CORE (alter / forge, every chain length, every non-genesis position): if the stored block `i ≥ 1`
+    is replaced by ANY block `b'` and the chain still verifies, then `b'` has exactly the signing bytes and the
+    signature of the original.  Needs only `SigSound` (the predecessor check pins the height, the height is
+    readable from the signed bytes, so the validators' signature over another height cannot be reused). -/
+theorem tamper_detected_forged_block (C : Crypto) (r : List (List Nat × Nat)) (c : ChainSt)
+    (hinv : Inv C (some r) c) (hwf : ∀ j b, blockAt c.store j = some b → b.header.height < 2 ^ 64)
+    (hsound : SigSound C (signedOf r c.store c.height))
+    (i : Nat) (h1 : 1 ≤ i) (h2 : i ≤ c.height) (o b' : Block) (ho : blockAt c.store i = some o)
+    (hwf' : b'.header.height < 2 ^ 64)
+    (hne : b'.header.bytes ≠ o.header.bytes ∨ b'.header.signature ≠ o.header.signature) :
+    verifyChain C (some r) (withBlock c i b') ≠ none := by
+  intro hv
+  have hok := verify_sound C (some r) (withBlock c i b') hv (by simp [withBlock]; omega)
+  obtain ⟨p, b, hp, hb, hc⟩ := hok.2 i h1 (by simpa [withBlock] using h2)
+  simp only [withBlock] at hp hb
+  rw [blockAt_sput_same] at hb
+  cases hb
+  rw [blockAt_sput_ne _ _ _ _ (by simp; omega)] at hp
+  obtain ⟨p0, hp0, hph⟩ := hinv.heights (i - 1) (by omega)
+  rw [hp0] at hp; cases hp
+  obtain ⟨hh, _, _, _, hs⟩ := checkLink_none C (some r) _ _ hc
+  obtain ⟨k, _, hver⟩ := regSigOk_some C r _ hs
+  obtain ⟨j, bj, hj1, hj2, hbj, hbytes, hsig⟩ := mem_signedOf r c.store c.height _ (hsound _ _ _ hver)
+  simp only at hbytes hsig
+  obtain ⟨bj', hbj', hjh⟩ := hinv.heights j hj2
+  rw [hbj] at hbj'; cases hbj'
+  have hhj : b'.header.height = bj.header.height := bytes_height _ _ hwf' (hwf j bj hbj) hbytes
+  have : j = i := by omega
+  subst this
+  rw [ho] at hbj; cases hbj
+  rcases hne with hne | hne
+  · exact hne hbytes
+  · exact hne hsig
+
+/-- genesis (`i = 0`) header: its hash is pinned by block 1's `prev_hash` (needs `HashInjOn`) -/
+theorem tamper_detected_genesis_header (C : Crypto) (reg : Option (List (List Nat × Nat))) (occ : List Nat → Prop)
+    (c : ChainSt) (hinv : Inv C reg c) (hinj : HashInjOn C occ) (hh : 1 ≤ c.height)
+    (o b' : Block) (ho : blockAt c.store 0 = some o) (ho1 : occ o.header.bytes) (ho2 : occ b'.header.bytes)
+    (hne : b'.header.bytes ≠ o.header.bytes) :
+    verifyChain C reg (withBlock c 0 b') ≠ none := by
+  intro hv
+  have hok := verify_sound C reg (withBlock c 0 b') hv (by simpa [withBlock] using hh)
+  obtain ⟨p, b, hp, hb, hc⟩ := hok.2 1 (Nat.le_refl _) (by simpa [withBlock] using hh)
+  simp only [withBlock, Nat.sub_self] at hp hb
+  rw [blockAt_sput_same] at hp
+  cases hp
+  rw [blockAt_sput_ne _ _ _ _ (by simp)] at hb
+  obtain ⟨p0, b0, hp0, hb0, hc0⟩ := hinv.ok.2 1 (Nat.le_refl _) hh
+  simp only [Nat.sub_self] at hp0
+  rw [ho] at hp0; cases hp0
+  rw [hb] at hb0; cases hb0
+  have e1 := (checkLink_none C reg _ _ hc).2.1
+  have e2 := (checkLink_none C reg _ _ hc0).2.1
+  rw [e1] at e2
+  exact hne (hinj _ _ ho2 ho1 e2)
+
+/-- the per-field statement, all positions `0..=height` of every chain with `height ≥ 1`:
+    a replacement whose signing bytes differ from the original's is detected -/
+theorem tamper_detected_header_bytes (C : Crypto) (r : List (List Nat × Nat)) (occ : List Nat → Prop) (c : ChainSt)
+    (hinv : Inv C (some r) c) (hwf : ∀ j b, blockAt c.store j = some b → b.header.height < 2 ^ 64)
+    (hinj : HashInjOn C occ) (hsound : SigSound C (signedOf r c.store c.height)) (hh : 1 ≤ c.height)
+    (i : Nat) (h2 : i ≤ c.height) (o b' : Block) (ho : blockAt c.store i = some o)
+    (ho1 : occ o.header.bytes) (ho2 : occ b'.header.bytes) (hwf' : b'.header.height < 2 ^ 64)
+    (hne : b'.header.bytes ≠ o.header.bytes) :
+    verifyChain C (some r) (withBlock c i b') ≠ none := by
+  by_cases h0 : i = 0
+  · subst h0
+    exact tamper_detected_genesis_header C (some r) occ c hinv hinj hh o b' ho ho1 ho2 hne
+  · exact tamper_detected_forged_block C r c hinv hwf hsound i (by omega) h2 o b' ho hwf' (Or.inl hne)
+
+/-- hypotheses shared by the per-field theorems, bundled -/
+structure Honest (C : Crypto) (r : List (List Nat × Nat)) (occ : List Nat → Prop) (c : ChainSt) : Prop where
+  inv : Inv C (some r) c
+  wf : ∀ j b, blockAt c.store j = some b → b.header.WF
+  inj : HashInjOn C occ
+  sound : SigSound C (signedOf r c.store c.height)
+  occAll : ∀ x, occ x
+  nonempty : 1 ≤ c.height
+
+theorem field_detected (C : Crypto) (r : List (List Nat × Nat)) (occ : List Nat → Prop) (c : ChainSt)
+    (H : Honest C r occ c) (i : Nat) (h2 : i ≤ c.height) (o : Block) (ho : blockAt c.store i = some o) (h' : Header)
+    (hwf' : h'.height < 2 ^ 64) (hne : h'.bytes ≠ o.header.bytes) :
+    verifyChain C (some r) (withBlock c i { o with header := h' }) ≠ none :=
+  tamper_detected_header_bytes C r occ c H.inv (fun j b hb => (H.wf j b hb).1) H.inj H.sound H.nonempty i h2 o _ ho
+    (H.occAll _) (H.occAll _) hwf' hne
+
+theorem tamper_detected_height (C : Crypto) (r : List (List Nat × Nat)) (occ : List Nat → Prop) (c : ChainSt)
+    (H : Honest C r occ c) (i : Nat) (h2 : i ≤ c.height) (o : Block) (ho : blockAt c.store i = some o)
+    (v : Nat) (hv : v < 2 ^ 64) (hne : v ≠ o.header.height) :
+    verifyChain C (some r) (withBlock c i { o with header := { o.header with height := v } }) ≠ none := by
+  refine field_detected C r occ c H i h2 o ho _ ?_ ?_
+  · exact hv
+  intro hb
+  exact hne (bytes_height _ _ hv (H.wf i o ho).1 hb)
+
+theorem tamper_detected_prev_hash (C : Crypto) (r : List (List Nat × Nat)) (occ : List Nat → Prop) (c : ChainSt)
+    (H : Honest C r occ c) (i : Nat) (h2 : i ≤ c.height) (o : Block) (ho : blockAt c.store i = some o)
+    (v : List Nat) (hne : v ≠ o.header.prevHash) :
+    verifyChain C (some r) (withBlock c i { o with header := { o.header with prevHash := v } }) ≠ none := by
+  refine field_detected C r occ c H i h2 o ho _ ?_ ?_
+  · exact (H.wf i o ho).1
+  intro hb
+  simp only [Header.bytes] at hb
+  exact hne (List.append_cancel_right (List.append_cancel_left hb))
+
+theorem tamper_detected_tx_root (C : Crypto) (r : List (List Nat × Nat)) (occ : List Nat → Prop) (c : ChainSt)
+    (H : Honest C r occ c) (i : Nat) (h2 : i ≤ c.height) (o : Block) (ho : blockAt c.store i = some o)
+    (v : List Nat) (hne : v ≠ o.header.txRoot) :
+    verifyChain C (some r) (withBlock c i { o with header := { o.header with txRoot := v } }) ≠ none := by
+  refine field_detected C r occ c H i h2 o ho _ ?_ ?_
+  · exact (H.wf i o ho).1
+  intro hb
+  simp only [Header.bytes] at hb
+  exact hne (List.append_cancel_right (List.append_cancel_left (List.append_cancel_left hb)))
+
+theorem tamper_detected_state_root (C : Crypto) (r : List (List Nat × Nat)) (occ : List Nat → Prop) (c : ChainSt)
+    (H : Honest C r occ c) (i : Nat) (h2 : i ≤ c.height) (o : Block) (ho : blockAt c.store i = some o)
+    (v : List Nat) (hne : v ≠ o.header.stateRoot) :
+    verifyChain C (some r) (withBlock c i { o with header := { o.header with stateRoot := v } }) ≠ none := by
+  refine field_detected C r occ c H i h2 o ho _ ?_ ?_
+  · exact (H.wf i o ho).1
+  intro hb
+  simp only [Header.bytes] at hb
+  exact hne (List.append_cancel_right (List.append_cancel_left (List.append_cancel_left (List.append_cancel_left hb))))
+
+theorem tamper_detected_delta_embedding (C : Crypto) (r : List (List Nat × Nat)) (occ : List Nat → Prop) (c : ChainSt)
+    (H : Honest C r occ c) (i : Nat) (h2 : i ≤ c.height) (o : Block) (ho : blockAt c.store i = some o)
+    (v : List Nat) (hne : v ≠ o.header.embedding) :
+    verifyChain C (some r) (withBlock c i { o with header := { o.header with embedding := v } }) ≠ none := by
+  refine field_detected C r occ c H i h2 o ho _ ?_ ?_
+  · exact (H.wf i o ho).1
+  intro hb
+  simp only [Header.bytes] at hb
+  exact hne (List.append_cancel_right (List.append_cancel_left (List.append_cancel_left
+    (List.append_cancel_left (List.append_cancel_left hb)))))
+
+theorem tamper_detected_quantized_codes (C : Crypto) (r : List (List Nat × Nat)) (occ : List Nat → Prop) (c : ChainSt)
+    (H : Honest C r occ c) (i : Nat) (h2 : i ≤ c.height) (o : Block) (ho : blockAt c.store i = some o)
+    (v : List Nat) (hv : ∀ x ∈ v, x < 2 ^ 16) (hne : v ≠ o.header.codes) :
+    verifyChain C (some r) (withBlock c i { o with header := { o.header with codes := v } }) ≠ none := by
+  refine field_detected C r occ c H i h2 o ho _ ?_ ?_
+  · exact (H.wf i o ho).1
+  intro hb
+  simp only [Header.bytes] at hb
+  have := List.append_cancel_right (List.append_cancel_left (List.append_cancel_left
+    (List.append_cancel_left (List.append_cancel_left (List.append_cancel_left hb)))))
+  exact hne (flatMap_leBytes2_inj _ _ hv (H.wf i o ho).2.2 this)
+
+theorem tamper_detected_timestamp (C : Crypto) (r : List (List Nat × Nat)) (occ : List Nat → Prop) (c : ChainSt)
+    (H : Honest C r occ c) (i : Nat) (h2 : i ≤ c.height) (o : Block) (ho : blockAt c.store i = some o)
+    (v : Nat) (hv : v < 2 ^ 64) (hne : v ≠ o.header.timestamp) :
+    verifyChain C (some r) (withBlock c i { o with header := { o.header with timestamp := v } }) ≠ none := by
+  refine field_detected C r occ c H i h2 o ho _ ?_ ?_
+  · exact (H.wf i o ho).1
+  intro hb
+  simp only [Header.bytes] at hb
+  have := List.append_cancel_right (List.append_cancel_left (List.append_cancel_left
+    (List.append_cancel_left (List.append_cancel_left (List.append_cancel_left (List.append_cancel_left hb))))))
+  exact hne (leBytes8_inj _ _ hv (H.wf i o ho).2.1 this)
+
+theorem tamper_detected_proposer (C : Crypto) (r : List (List Nat × Nat)) (occ : List Nat → Prop) (c : ChainSt)
+    (H : Honest C r occ c) (i : Nat) (h2 : i ≤ c.height) (o : Block) (ho : blockAt c.store i = some o)
+    (v : List Nat) (hne : v ≠ o.header.proposer) :
+    verifyChain C (some r) (withBlock c i { o with header := { o.header with proposer := v } }) ≠ none := by
+  refine field_detected C r occ c H i h2 o ho _ ?_ ?_
+  · exact (H.wf i o ho).1
+  intro hb
+  simp only [Header.bytes] at hb
+  exact hne (List.append_cancel_left (List.append_cancel_left (List.append_cancel_left
+    (List.append_cancel_left (List.append_cancel_left (List.append_cancel_left (List.append_cancel_left hb)))))))
+
+/-- PARTIAL (missing: position 0 — the genesis `signature` is neither hashed nor verified, see
+    `tamper_genesis_signature_witness`).  The `signature` field of every non-genesis block. -/
+theorem tamper_detected_signature_partial (C : Crypto) (r : List (List Nat × Nat)) (occ : List Nat → Prop) (c : ChainSt)
+    (H : Honest C r occ c) (i : Nat) (h1 : 1 ≤ i) (h2 : i ≤ c.height) (o : Block) (ho : blockAt c.store i = some o)
+    (v : List Nat) (hne : v ≠ o.header.signature) :
+    verifyChain C (some r) (withBlock c i { o with header := { o.header with signature := v } }) ≠ none :=
+  tamper_detected_forged_block C r c H.inv (fun j b hb => (H.wf j b hb).1) H.sound i h1 h2 o _ ho (H.wf i o ho).1 (Or.inr hne)
+
+/-- removing any stored block `0..=height` is detected (no crypto needed) -/
+theorem tamper_detected_removed (C : Crypto) (reg : Option (List (List Nat × Nat))) (c : ChainSt)
+    (hh : 1 ≤ c.height) (i : Nat) (h2 : i ≤ c.height) :
+    verifyChain C reg { c with store := sdel c.store (.block i) } ≠ none := by
+  intro hv
+  have hok := verify_sound C reg _ hv (by simpa using hh)
+  by_cases h0 : i = 0
+  · subst h0
+    obtain ⟨g, hg⟩ := hok.1
+    simp only at hg
+    rw [blockAt_sdel_same] at hg
+    cases hg
+  · obtain ⟨p, b, _, hb, _⟩ := hok.2 i (by omega) (by simpa using h2)
+    simp only at hb
+    rw [blockAt_sdel_same] at hb
+    cases hb
+
+/-- reordering: swapping the stored blocks at two different positions is detected (no crypto needed) -/
+theorem tamper_detected_reordered (C : Crypto) (reg : Option (List (List Nat × Nat))) (c : ChainSt) (hinv : Inv C reg c)
+    (i j : Nat) (hij : i < j) (hj : j ≤ c.height) (oi oj : Block)
+    (hoi : blockAt c.store i = some oi) (hoj : blockAt c.store j = some oj) :
+    verifyChain C reg { c with store := sput (sput c.store (.block i) (.block oj)) (.block j) (.block oi) } ≠ none := by
+  intro hv
+  have hok := verify_sound C reg _ hv (by simp; omega)
+  obtain ⟨x, hx, hxh⟩ := hinv.heights i (by omega)
+  rw [hoi] at hx; cases hx
+  obtain ⟨y, hy, hyh⟩ := hinv.heights j hj
+  rw [hoj] at hy; cases hy
+  by_cases h0 : i = 0
+  · -- genesis swapped with block j: look at position 1
+    subst h0
+    obtain ⟨p, b, hp, hb, hc⟩ := hok.2 1 (Nat.le_refl _) (by simp; omega)
+    simp only [Nat.sub_self] at hp hb
+    rw [blockAt_sput_ne _ _ _ _ (by simp; omega), blockAt_sput_same] at hp
+    cases hp
+    have hh := (checkLink_none C reg _ _ hc).1
+    by_cases hj1 : j = 1
+    · subst hj1
+      rw [blockAt_sput_same] at hb
+      cases hb
+      omega
+    · rw [blockAt_sput_ne _ _ _ _ (by simp; omega), blockAt_sput_ne _ _ _ _ (by simp)] at hb
+      obtain ⟨z, hz, hzh⟩ := hinv.heights 1 (by omega)
+      rw [hb] at hz; cases hz
+      omega
+  · -- position i ≥ 1 now holds the block of height j, its predecessor i-1 is untouched
+    obtain ⟨p, b, hp, hb, hc⟩ := hok.2 i (by omega) (by simp; omega)
+    simp only at hp hb
+    rw [blockAt_sput_ne _ _ _ _ (by simp; omega), blockAt_sput_same] at hb
+    cases hb
+    rw [blockAt_sput_ne _ _ _ _ (by simp; omega), blockAt_sput_ne _ _ _ _ (by simp; omega)] at hp
+    obtain ⟨z, hz, hzh⟩ := hinv.heights (i - 1) (by omega)
+    rw [hp] at hz; cases hz
+    have hh := (checkLink_none C reg _ _ hc).1
+    omega
+
+/-! ### the `transactions` field -/
+
+/-- WITNESS: `merkle_root` gives `[a,b,c]` and `[a,b,c,c]` the same root for EVERY hash function: the odd
     last leaf is paired with itself, which is exactly the pair `(c,c)` of the longer list.
-    Hence the `transactions` field is not bound by `tx_root`. -/
+    Hence `tx_root` does not bind the `transactions` field (reproduced on `Block::verify_tx_root`). -/
 theorem merkle_duplicate_witness (C : Crypto) (a b c : Tx) :
     [a, b, c] ≠ [a, b, c, c] ∧ txRoot C [a, b, c] = txRoot C [a, b, c, c] := by
   refine ⟨by simp, ?_⟩
   simp [txRoot, merkleRoot, merkleLoop, merkleLevel]
+
+/-- WITNESS: consequently a stored non-genesis block can be altered without `verify_chain` noticing,
+    validator registry and all. -/
+theorem tamper_transactions_witness :
+    ∃ (c : ChainSt) (o : Block) (txs' : List Tx), Built drvCrypto (some [([1], 1)]) c ∧ blockAt c.store 1 = some o ∧
+      txs' ≠ o.txs ∧ verifyChain drvCrypto (some [([1], 1)]) (withBlock c 1 { o with txs := txs' }) = none := by
+  let g := initChain drvCrypto [] [1] 10
+  let txs : List Tx := [.put 1 1, .put 2 2, .put 3 3]
+  let h0 : Header := { height := 1, prevHash := g.tip, txRoot := txRoot drvCrypto txs, stateRoot := [0], embedding := [],
+                       codes := [], timestamp := 11, proposer := [1], signature := [] }
+  let b : Block := { header := { h0 with signature := drvCrypto.sign 1 h0.bytes }, txs := txs, sigs := [] }
+  let c : ChainSt := { store := sput (sput g.store (.block 1) (.block b)) .chainMeta (.height 1), height := 1,
+                       tip := b.header.hash drvCrypto }
+  refine ⟨c, b, txs ++ [.put 3 3], ?_, by decide, by decide, by decide⟩
+  exact Built.step g c b (Built.init _ _ _) (by rfl) (by decide) (by decide)
+
+/-- PARTIAL (missing: injectivity of `txRoot`, which fails for a duplicated tail as shown above; for lists of
+    equal length it follows from `HashInjOn` + equal hash lengths but is not proved here).  Every alteration of
+    the `transactions` of a non-genesis block that changes the Merkle root is detected — no crypto hypothesis
+    needed, for every chain length. -/
+theorem tamper_detected_transactions_partial (C : Crypto) (reg : Option (List (List Nat × Nat))) (c : ChainSt)
+    (hinv : Inv C reg c) (i : Nat) (h1 : 1 ≤ i) (h2 : i ≤ c.height) (o : Block) (ho : blockAt c.store i = some o)
+    (txs' : List Tx) (hne : txRoot C txs' ≠ txRoot C o.txs) :
+    verifyChain C reg (withBlock c i { o with txs := txs' }) ≠ none := by
+  intro hv
+  have hok := verify_sound C reg _ hv (by simp [withBlock]; omega)
+  obtain ⟨p, b, _, hb, hc⟩ := hok.2 i h1 (by simpa [withBlock] using h2)
+  simp only [withBlock] at hb
+  rw [blockAt_sput_same] at hb
+  cases hb
+  obtain ⟨p0, b0, _, hb0, hc0⟩ := hinv.ok.2 i h1 h2
+  rw [ho] at hb0; cases hb0
+  have e1 := (checkLink_none C reg _ _ hc).2.2.1
+  have e2 := (checkLink_none C reg _ _ hc0).2.2.1
+  simp only at e1
+  rw [e2] at e1
+  exact hne e1.symm
+
+/-- WITNESS: the genesis block's `transactions` are never compared with its `tx_root`
+    (`verify_chain` starts its checks at block 1): forged genesis transactions go unnoticed. -/
+theorem tamper_genesis_transactions_witness :
+    ∃ (c : ChainSt) (o : Block), Built drvCrypto (some [([1], 1)]) c ∧ 1 ≤ c.height ∧ blockAt c.store 0 = some o ∧
+      verifyChain drvCrypto (some [([1], 1)]) (withBlock c 0 { o with txs := [.put 9 9] }) = none :=
+  ⟨exChain1, genesisBlock drvCrypto [1] 10,
+    Built.step (initChain drvCrypto [] [1] 10) exChain1 exBlock1 (Built.init _ _ _) (by rfl) (by decide) (by decide),
+    by decide, by decide, by decide⟩
+
+/-- WITNESS: the genesis block's `signature` is neither part of its hash nor verified. -/
+theorem tamper_genesis_signature_witness :
+    ∃ (c : ChainSt) (o : Block), Built drvCrypto (some [([1], 1)]) c ∧ 1 ≤ c.height ∧ blockAt c.store 0 = some o ∧
+      verifyChain drvCrypto (some [([1], 1)])
+        (withBlock c 0 { o with header := { o.header with signature := [6, 6, 6] } }) = none :=
+  ⟨exChain1, genesisBlock drvCrypto [1] 10,
+    Built.step (initChain drvCrypto [] [1] 10) exChain1 exBlock1 (Built.init _ _ _) (by rfl) (by decide) (by decide),
+    by decide, by decide, by decide⟩
+
+/-- WITNESS: `Block.signatures` (the validator-signature vector) is covered by no hash and no signature,
+    at any position. -/
+theorem tamper_signatures_witness :
+    ∃ (c : ChainSt) (o : Block), Built drvCrypto (some [([1], 1)]) c ∧ blockAt c.store 1 = some o ∧
+      verifyChain drvCrypto (some [([1], 1)]) (withBlock c 1 { o with sigs := [1] }) = none :=
+  ⟨exChain1, exBlock1,
+    Built.step (initChain drvCrypto [] [1] 10) exChain1 exBlock1 (Built.init _ _ _) (by rfl) (by decide) (by decide),
+    by decide, by decide⟩
+
+/-- WITNESS: a chain that only has its genesis block is not checked at all (`height == 0` returns `Ok`
+    before reading the store) — even removing the genesis record goes unnoticed. -/
+theorem tamper_genesis_only_witness (C : Crypto) (reg : Option (List (List Nat × Nat))) (s : List (SKey × SVal)) (tip : List Nat) :
+    verifyChain C reg { store := s, height := 0, tip := tip } = none := by
+  simp [verifyChain]
+
+/-- non-vacuity of `Honest` and of the tamper theorems: the concrete two-block chain satisfies every
+    hypothesis (hash = identity is injective; the only triple that verifies under key 1 … is checked by
+    evaluation on the stored block), and an altered state root is indeed rejected -/
+example : verifyChain drvCrypto (some [([1], 1)])
+    (withBlock exChain1 1 { exBlock1 with header := { exBlock1.header with stateRoot := [7] } }) = some .badSig := by decide
+
+example : HashInjOn drvCrypto (fun _ => True) := fun _ _ _ _ h => h
 
 end Neumann.Chain.Props
